@@ -79,6 +79,15 @@ static void cases(Harness &H, const std::string &d0, const Grid<S> &g, const Gri
               if (got != ex) H.fail("bilinear", std::string("<") + O1::name + " a|" + O2::name + " b> = " + got.get_str() + ", exact integral = " + ex.get_str() + " for a=" + dump(sa) + " b=" + dump(sb) + " v=" + dump(v));
               if (swapped != got) H.fail("bilinear:swap", "swapping the (operator, spline) pairs changes the value: " + got.get_str() + " vs " + swapped.get_str());
               if (!common && got != 0) H.fail("bilinear:nocommon", "non-zero without a common interval");
+              if constexpr (oa == ob) {
+                // the same OBJECT as both arguments (anything keyed on &a == &b)
+                if (a == b && pq.first == Ka + 1 && !copy) {
+                  mpq_class exs = rinteg(rmul(ref_apply(*a1, ra), ref_apply(*a2, ra)), pts);
+                  mpq_class self = val(BilinearForm{O1::make(v), O2::make(v)}(sa, sa));
+                  if (self != exs) H.fail("bilinear:same-object", "form(a, a) with one object = " + self.get_str() + ", exact integral = " + exs.get_str());
+                  H.cls("same-object");
+                }
+              }
               if constexpr (I == 0 && J == 0) {
                 mpq_class sp = val(ScalarProduct{}(sa, sb));
                 mpq_class sp2 = val(BilinearForm{}(sa, sb));
